@@ -444,7 +444,14 @@ func BuildSeqHeaderFromVpsSpsPps(vps, sps, pps []byte) ([]byte, error) {
 	return sh, nil
 }
 
-func ParseVps(vps []byte, ctx *Context) error {
+func ParseVps(vps []byte, ctx *Context) (err error) {
+	// 同avc.ParseSps，nazabits.BitReader读到缓冲区末尾时可能数组越界panic
+	defer func() {
+		if r := recover(); r != nil {
+			Log.Errorf("ParseVps panic. r=%+v", r)
+			err = nazaerrors.Wrap(base.ErrHevc)
+		}
+	}()
 	if len(vps) < 2 {
 		return nazaerrors.Wrap(base.ErrHevc)
 	}
@@ -478,8 +485,14 @@ func ParseVps(vps []byte, ctx *Context) error {
 	return parsePtl(&br, ctx, vpsMaxSubLayersMinus1)
 }
 
-func ParseSps(sps []byte, ctx *Context) error {
-	var err error
+func ParseSps(sps []byte, ctx *Context) (err error) {
+	// 同avc.ParseSps，nazabits.BitReader读到缓冲区末尾时可能数组越界panic
+	defer func() {
+		if r := recover(); r != nil {
+			Log.Errorf("ParseSps panic. r=%+v", r)
+			err = nazaerrors.Wrap(base.ErrHevc)
+		}
+	}()
 
 	if len(sps) < 2 {
 		return nazaerrors.Wrap(base.ErrHevc)
